@@ -157,6 +157,8 @@ pub enum Step {
 	Dbg(usize, Option<usize>),
 	GetKey,
 	IsPoisoned(usize),
+	/// `clear_poison()` on collection c while holding
+	ClearPoison(usize),
 }
 #[derive(Clone, Debug, PartialEq, Eq)]
 pub struct Session {
@@ -189,6 +191,7 @@ impl Step {
 			Step::Dbg(c, Some(x)) => format!("d{c}!{x}"),
 			Step::GetKey => "g".into(),
 			Step::IsPoisoned(c) => format!("i{c}"),
+			Step::ClearPoison(c) => format!("c{c}"),
 		}
 	}
 	fn parse(s: &str) -> Option<Step> {
@@ -214,6 +217,7 @@ impl Step {
 				}
 			}
 			b'i' => Step::IsPoisoned(parse_nat(b, &mut i)?),
+			b'c' => Step::ClearPoison(parse_nat(b, &mut i)?),
 			b'g' if b.len() == 1 => Step::GetKey,
 			_ => return None,
 		})
@@ -395,6 +399,18 @@ pub struct Built {
 	pub poisonables: Vec<(usize, &'static Poisonable<Node>)>,
 	/// leaf id -> (slot, is_mutex) for every leaf that occurs
 	pub leaf_slot: Vec<usize>,
+}
+
+impl Built {
+	/// a second set of handles to the same (leaked, `'static`) objects, for another thread
+	pub fn handle(&self) -> Built {
+		Built {
+			slots: self.slots,
+			colls: self.colls.iter().map(Case::node_ref).collect(),
+			poisonables: self.poisonables.clone(),
+			leaf_slot: self.leaf_slot.clone(),
+		}
+	}
 }
 
 fn max_owned_addr(e: &Expr) -> usize {
